@@ -595,4 +595,5 @@ def c13_edit_invariance_bounded(ctx):
         obs.append(ob(key, "refuted" if g["bad"] else "discharged",
                       (f"{len(g['bad'])} of {g['n']} edits change the findings: " + "; ".join(g["bad"][:3])) if g["bad"]
                       else f"{g['n']} edits: findings unchanged up to the line shift", g["n"]))
-    return obs
+    from contracts.c12_sites import reuse_scenario
+    return obs + reuse_scenario(ctx, "c13-edit-invariance-bounded")
